@@ -25,7 +25,7 @@ package main
 //	the events of a pass are sorted by offset (the order in which events of DIFFERENT streams reach the output depends
 //	on the scheduling of the processor); ordered = every stream's events arrived in the order of their offsets.
 //	A panic of Commit ("offset corruption": an event committed at or below the saved offset of its stream) is appended to
-//	the pass as (#message); the pipeline is then thrown away (the stream of that event stays blocked).
+//	the pass as (#message).
 //
 // The worker is run synchronously, one pass per call, as in the export driver's Round - but with the REAL *pipeline.Pipeline
 // as its controller: (*worker).work is reached by its link name (its inputer parameter is an unexported interface type; the
@@ -43,7 +43,6 @@ import (
 	"path/filepath"
 	"reflect"
 	"sort"
-	"strings"
 	"sync"
 	"time"
 	"unsafe"
@@ -76,6 +75,17 @@ type c06FileIn struct {
 	*filein.Plugin
 	mu     sync.Mutex
 	passed int
+	panics []string
+}
+
+// Commit = the Plugin's Commit; its panic ("offset corruption") is recorded instead of unwinding Pipeline.finalize, which
+// would leave the stream of the event blocked for the cases that follow
+func (w *c06FileIn) Commit(e *pipeline.Event) {
+	if msg := hx.Catch(func() { w.Plugin.Commit(e) }); msg != "" {
+		w.mu.Lock()
+		w.panics = append(w.panics, msg)
+		w.mu.Unlock()
+	}
 }
 
 func (w *c06FileIn) Start(pipeline.AnyConfig, *pipeline.InputPluginParams) {}
@@ -100,7 +110,6 @@ type c06SOut struct {
 	mu      sync.Mutex
 	got     []c06SEvent
 	n       int
-	panics  []string
 	ctl     pipeline.OutputPluginController
 	payload string
 }
@@ -115,11 +124,8 @@ func (o *c06SOut) Out(e *pipeline.Event) {
 	o.mu.Lock()
 	o.got = append(o.got, ev)
 	o.mu.Unlock()
-	msg := hx.Catch(func() { o.ctl.Commit(e) })
+	o.ctl.Commit(e)
 	o.mu.Lock()
-	if msg != "" {
-		o.panics = append(o.panics, msg)
-	}
 	o.n++
 	o.mu.Unlock()
 }
@@ -156,8 +162,8 @@ func c06SPipeFor(k [4]int, jp unsafe.Pointer) *c06SPipe {
 		logger.Level.SetLevel(zapcore.FatalLevel)
 		c06SQuiet = true
 	}
-	if c06SPipesMade >= 400 {
-		panic("harness/c06: too many pipelines of the streams sub-model (fixed set of settings; one more per Commit panic)")
+	if c06SPipesMade >= 100 {
+		panic("harness/c06: too many pipelines of the streams sub-model (the generators use a fixed set of settings)")
 	}
 	c06SPipesMade++
 	thr := -1
@@ -205,10 +211,10 @@ func c06SPipeFor(k [4]int, jp unsafe.Pointer) *c06SPipe {
 // (events) ordered
 func (e *c06SPipe) pass(v *filein.VerifC06, bufsz int) []hx.Sx {
 	e.out.mu.Lock()
-	e.out.got, e.out.n, e.out.panics = nil, 0, nil
+	e.out.got, e.out.n = nil, 0
 	e.out.mu.Unlock()
 	e.in.mu.Lock()
-	e.in.passed = 0
+	e.in.passed, e.in.panics = 0, nil
 	e.in.mu.Unlock()
 	g := c06GutsOf(v)
 	dv := reflect.ValueOf(v).Elem()
@@ -221,9 +227,9 @@ func (e *c06SPipe) pass(v *filein.VerifC06, bufsz int) []hx.Sx {
 	deadline := time.Now().Add(5 * time.Second)
 	for {
 		e.out.mu.Lock()
-		n, broken := e.out.n, len(e.out.panics) > 0
+		n := e.out.n
 		e.out.mu.Unlock()
-		if n >= want || broken { // after a panic of Commit the stream of that event stays blocked: nothing more to wait for
+		if n >= want {
 			break
 		}
 		if time.Now().After(deadline) {
@@ -232,9 +238,12 @@ func (e *c06SPipe) pass(v *filein.VerifC06, bufsz int) []hx.Sx {
 		time.Sleep(20 * time.Microsecond)
 	}
 	e.out.mu.Lock()
-	got, panics := e.out.got, e.out.panics
-	e.out.got, e.out.panics = nil, nil
+	got := e.out.got
+	e.out.got = nil
 	e.out.mu.Unlock()
+	e.in.mu.Lock()
+	panics := e.in.panics
+	e.in.mu.Unlock()
 	ordered := true
 	last := map[string]int64{}
 	for _, ev := range got {
@@ -323,16 +332,13 @@ func c06ExecStreams(cs hx.Sx) hx.Sx {
 	if msg != "" {
 		passes = append(passes, hx.L(hx.S(msg)))
 	}
-	c06SDropBroken(k.key, e, msg != "", hx.L(passes...))
+	c06SDropBroken(k.key, e, msg != "")
 	return hx.L(passes...)
 }
 
-// a pipeline in which Commit panicked (or a wait timed out) is not used again
-func c06SDropBroken(k [4]int, e *c06SPipe, failed bool, obs hx.Sx) {
-	if e == nil {
-		return
-	}
-	if failed || strings.Contains(hx.String(obs), "(#50414e4943") { // (#PANIC...
+// a pipeline in which a wait timed out (or anything else went wrong) is not used again
+func c06SDropBroken(k [4]int, e *c06SPipe, failed bool) {
+	if e != nil && failed {
 		delete(c06SPipes, k)
 	}
 }
@@ -379,7 +385,7 @@ func c06ExecStreamsLz4(cs hx.Sx) hx.Sx {
 	if msg != "" {
 		out = hx.L(hx.S(msg))
 	}
-	c06SDropBroken(k.key, e, msg != "", out)
+	c06SDropBroken(k.key, e, msg != "")
 	return out
 }
 
@@ -557,7 +563,7 @@ func c06GenStreams(c *hmain.Ctx, bufs []int) {
 		}
 		return
 	}
-	for i := 0; i < 900*c.Scale; i++ {
+	for i := 0; i < 2000*c.Scale; i++ {
 		format := r.Intn(2)
 		cf := hx.Pick(r, cfgsS)
 		lines, owner := randFile(format)
@@ -592,7 +598,7 @@ func c06GenStreams(c *hmain.Ctx, bufs []int) {
 		c.Do("streams-random", 9, c06SCaseSx(format, r.Bool(), cf, names, offs, b[:cutAt], rs), len(distinct) >= 2)
 	}
 	// lz4: the saved offsets are line ends (the minimum must be one: the model rejects other cases as for which 6 | 7)
-	for i := 0; i < 250*c.Scale; i++ {
+	for i := 0; i < 500*c.Scale; i++ {
 		format := r.Intn(2)
 		cf := hx.Pick(r, cfgsS)
 		lines, owner := randFile(format)
